@@ -118,6 +118,17 @@ check("C14", "model_checking",
       "Trusted: typing rules B.2; transposes of composite/inverse/zero discrete operators (scipy's generic fallback, no rmatvec) are declined.",
       "exhaustive enumeration of bounded-depth expression trees against a typed reference interpreter")
 
+check("C13", "exploration",
+      "Exhaustive sweep: every ordered pair of {DP0,DP1,P1,RWG,SNC} spaces (whole grid and segment variants) of equal codomain x "
+      "every quadrature order 1..20 that integrates the product exactly, against the exact Gram matrix of the represented basis "
+      "functions; SPD / sum-is-area consequences; Laplace-Beltrami against per-element exact stiffness; projection of affine / "
+      "constant-tangential members of each space through all 16 callable-decorator flag combinations; integrate, l2_norm, projections, "
+      "evaluate_on_vertices, evaluate_on_element_centers for every unit coefficient vector (linearity => all vectors); "
+      "MultiplicationOperator in component and inner mode.",
+      "DESIGN.md 4/C13 and B.5",
+      "Trusted: degree-4 exact rule (Dunavant) applied to basis functions evaluated through the public path (validated by C09).",
+      "exhaustive sweep (space pair x order x unit vector) against exact L2 quantities")
+
 ALL = ["C%02d" % i for i in range(1, 21)]
 
 
